@@ -241,6 +241,9 @@ def main():
                 "Coq 8.16.1 kernel (coqc, vm_compute; no native_compute)",
                 "axioms reported by Print Assumptions on this run: %s" % (axioms or "none (closed under the global context)"),
                 "harness/translate.py (tables and code constants regenerated from /repo on this run)",
+                "harness/py2coq.py + coq/model/PyMini.v (function bodies translated from /repo on this run into Gallina over "
+                "PyMini's reading of Python's ==, len, slicing, in, +, -, &, truthiness and dict lookup; the *_from_source "
+                "theorems prove the translated bodies equal to the hand-written model)",
                 "extraction with ExtrOcamlBasic only + coq/extract/driver.ml",
                 "correspondence harness (harness/*.py): differential testing, validates the model, not the proof",
             ] + list(getattr(mod, "TRUSTED", [])),
@@ -260,6 +263,8 @@ def main():
             "extraction_crosscheck": {"evaluated_in_coq_by_vm_compute": vm["checked"], "agree_with_ocaml": vm["ok"],
                                       "differ": len(vm["bad"]), "not_expressible": vm["skipped"]},
             "translator": ctx.bld.translate_report.get("summary", {}) if ctx.bld else {},
+            "source_functions_translated": ctx.bld.translate_report.get("py2coq", {}).get("translated", []) if ctx.bld else [],
+            "source_functions_not_translated": ctx.bld.translate_report.get("py2coq", {}).get("untranslated", {}) if ctx.bld else {},
             "translator_template_mismatches": ctx.bld.translate_report.get("template_mismatches", []) if ctx.bld else [],
             "build_wall_s": round(ctx.bld.wall, 1) if ctx.bld else None,
             "notes": ctx.notes[:20],
